@@ -266,11 +266,44 @@ def cache_rules(run, db):
             ip = sorted({t for k, t in problems if k == 'inplace'})
             run.check(not ip, 'C01.cache', fi.qual, 'cached arrays', 'no array held by a memo is operated on in place',
                       '%s: later calls with the same key see the modified array' % '; '.join(ip), fi.loc())
+        # clear(): interpreted on an object whose memos each hold one entry; afterwards every memo attribute is an empty dict
         clr = db.method(ci, 'clear')
-        cleared = {t.attr for st in clr.node.body if isinstance(st, ast.Assign) for t in st.targets if isinstance(t, ast.Attribute)} if clr else set()
-        cleared |= {n.func.value.attr for n in (ast.walk(clr.node) if clr else []) if isinstance(n, ast.Call) and isinstance(n.func, ast.Attribute) and n.func.attr == 'clear'
-                    and isinstance(n.func.value, ast.Attribute)}
-        run.check(set(memos) <= cleared, 'C01.cache', ci.qual + '.clear', 'clear', 'clear() resets every memo', 'clear() leaves %s populated' % sorted(set(memos) - cleared), clr.loc() if clr else '')
+        if clr is None:
+            run.check(False, 'C01.cache', ci.qual + '.clear', 'clear', '', 'the executor has no clear()', '')
+        else:
+            from ..core.interp import Domain, DictV, Obj as _Obj
+
+            class CD(Domain):
+                def method(self, v, name, args, kwargs, node):
+                    return None
+            cdom = CD()
+            cit = Interp(db, cdom)
+
+            def mkfull():
+                o = _Obj(ci)
+                for m_ in memos:
+                    d_ = DictV()
+                    d_.set(Const('k'), Const('v'))
+                    o.attrs[m_] = d_
+                return o
+            holder = {}
+
+            def mk2():
+                holder['o'] = mkfull()
+                return holder['o']
+            left = set()
+            npaths = 0
+            for p_ in cit.run(clr, self_obj=mk2):
+                if p_.outcome != 'return':
+                    continue
+                npaths += 1
+                for m_ in memos:
+                    v_ = holder['o'].attrs.get(m_)
+                    if not (isinstance(v_, DictV) and not v_.entries):
+                        left.add(m_)
+            if not npaths:
+                raise AnalysisError('%s.clear: no returning path' % ci.qual)
+            run.check(not left, 'C01.cache', ci.qual + '.clear', 'clear', 'clear() resets every memo', 'clear() leaves %s populated' % sorted(left), clr.loc())
 
 
 def fresh_rules(run, db, rule='C01.cache'):
